@@ -311,6 +311,27 @@ func registerNatives(ex *Explorer) {
 		return in.zeroResults(fn)
 	}
 
+	// ---------- math/bits ----------
+	// Len64 / Len32 / Len: the minimum number of bits representing x, as a chain of 64 threshold
+	// comparisons over the (mathematical, range-checked) unsigned value; the library's table lookup
+	// with a symbolic index is not interpreted
+	bitsLen := func(width int) func(in *Interp, fn *ssa.Function, a []Value) Value {
+		return func(in *Interp, fn *ssa.Function, a []Value) Value {
+			x, ok := a[0].(*sym.Term)
+			if !ok {
+				in.fail("unsupported", "math/bits.Len: argument is not an integer term")
+			}
+			r := in.F.Int(int64(width))
+			for n := width - 1; n >= 0; n-- {
+				r = in.F.Ite(in.F.Lt(x, in.F.BigInt(new(big.Int).Lsh(big.NewInt(1), uint(n)))), in.F.Int(int64(n)), r)
+			}
+			return r
+		}
+	}
+	I["math/bits.Len64"] = bitsLen(64)
+	I["math/bits.Len"] = bitsLen(64)
+	I["math/bits.Len32"] = bitsLen(32)
+
 	// ---------- time ----------
 	I["time.Now"] = func(in *Interp, fn *ssa.Function, a []Value) Value {
 		in.timeSeq++
